@@ -148,20 +148,19 @@ def items_request(pairs):
     files, origins, items = [], [], []
     fidx, oidx = {}, {}
     for key, org, _, _ in pairs:
-        if key is None and org is None:
-            continue
-        if org is None:
-            continue          # `if origin_info is None ...: continue` — such pairs never reach the map logic;
-                              # dropped to keep the request small (a sample WITH them is sent separately)
         if key is None:
             ks = ['-', 0]
         else:
             if key[0] not in fidx:
                 fidx[key[0]] = len(files); files.append(key[0])
             ks = [fidx[key[0]], key[1]]
-        if org not in oidx:
-            oidx[org] = len(origins); origins.append(origin_sx(org))
-        items.append([ks[0], ks[1], oidx[org]])
+        if org is None:
+            oi = '-'
+        else:
+            if org not in oidx:
+                oidx[org] = len(origins); origins.append(origin_sx(org))
+            oi = oidx[org]
+        items.append([ks[0], ks[1], oi])
     return files, origins, items
 
 
@@ -470,12 +469,16 @@ def _analyse(built, path, obs, out, want_corr):
         probs.append('innermost user frame %s, original traceback ends at %s' % (T[:1], U0[-1]))
     if not is_subsequence([(a, b) for a, b, _ in T], list(reversed(U0))):
         probs.append('listed user frames %s are not frames of the original traceback %s in the same order' % (T, U0))
-    exp_conv = [u['frames'][-1] + (set(n for n, _ in u['frames']),) for u in reversed(units) if u['conv']]
+    # one converted entry per separately converted function on the path, innermost first; the entry must be a frame
+    # of that function's activation (the pinned code lists its innermost frame; a lambda's frame goes by the name of
+    # the enclosing def, which is tolerated here when that def has a frame on the same line)
+    exp_conv = [u['frames'] for u in reversed(units) if u['conv']]
     got_conv = [(a, b) for a, b, cv in T if cv]
     all_conv = [fr for fr in c['stack'] if fr[4]]
-    ok_units = len(got_conv) == len(exp_conv) == len(all_conv) and all(g[1] == e[1] and g[0] in e[2] for g, e in zip(got_conv, exp_conv))
+    ok_units = len(got_conv) == len(exp_conv) == len(all_conv) and all(
+        g in fr or (g[1] in [l for _, l in fr] and g[0] in [n for n, _ in fr]) for g, fr in zip(got_conv, exp_conv))
     if not ok_units:
-        probs.append('converted entries %s, expected one per separately converted function: %s' % (got_conv, [(e[0], e[1]) for e in exp_conv]))
+        probs.append('converted entries %s, expected one per separately converted function: %s' % (got_conv, [fr[-1] for fr in exp_conv]))
     # levels as recorded, innermost first
     levels = []
     for sc in obs['stack_calls']:
